@@ -1,6 +1,6 @@
 (* Suites.v -- dispatcher over the correspondence suites.  Everything here is
    executable; it is extracted to OCaml and also evaluated inside Coq. *)
-From CoapV Require Import Base Suite01 Suite05 Suite06 Suite07 Suite13 Suite14 Suite16 Suite19.
+From CoapV Require Import Base Suite08 Suite01 Suite05 Suite06 Suite07 Suite13 Suite14 Suite16 Suite19.
 
 Definition run (suite : N) (s : list N) : list N :=
   match suite with
@@ -10,6 +10,8 @@ Definition run (suite : N) (s : list N) : list N :=
   | 50 => run50 s
   | 60 => run60 s
   | 70 => run07 s
+  | 80 | 90 | 100 | 110 | 200 => run_case8 s
+  | 120 => run_case12 s
   | 130 => run130 s
   | 140 => run140 s
   | 150 => run150 s
@@ -30,6 +32,12 @@ Definition verdict (suite : N) (s out : list N) : bool :=
   | 50 => verdict50 s out
   | 60 => verdict60 s out
   | 70 => verdict07 s out
+  | 80 => verdict80 s out
+  | 90 => verdict90 s out
+  | 100 => verdict100 s out
+  | 110 => verdict110 s out
+  | 120 => verdict120 s out
+  | 200 => verdict200 s out
   | 130 => verdict130 s out
   | 140 => verdict140 s out
   | 150 => verdict150 s out
@@ -49,6 +57,12 @@ Definition classify (suite : N) (s out : list N) : N :=
   | 50 => classify50 s
   | 60 => classify60 s
   | 70 => classify07 s
+  | 80 => classify80 s
+  | 90 => classify90 s
+  | 100 => classify100 s
+  | 110 => classify110 s
+  | 120 => classify120 s
+  | 200 => classify200 s
   | 130 => classify130 s
   | 140 => classify140 s
   | 150 => classify150 s
@@ -62,6 +76,7 @@ Definition classify (suite : N) (s out : list N) : N :=
 (* id of the known-finding class the input belongs to; 0 = none *)
 Definition known (suite : N) (s : list N) : N :=
   match suite with
+  | 90 => known90 s
   | 140 => known140 s
   | _ => 0
   end.
